@@ -26,3 +26,28 @@ Definition release_00 (family version : str) : str * str * str :=
   else if startswith family (lit "CentOS") then (lit "CentOS", lit "CentOS", v)
   else if startswith family (lit "EulerOS") then (lit "EulerOS", lit "EulerOS", v)
   else (family, [], v).
+
+(* ---- VariantPaths.deserialize_0_0 for a tree described by [general] alone: the repository / packages heuristics *)
+Definition rstrip_slash (s : str) : str := strip_right (fun c => N.eqb c c_slash) s.
+Definition or_dot (s : str) : str := match s with [] => lit "." | _ => s end.
+Definition major_of (version : str) : str := hd [] (split c_dot version).
+
+Definition paths_00 (short version vid arch : str) (repo_opt pkgs_opt : option str)
+  : option str * option str * option str * option str :=        (* packages, repository, source_packages, source_repository *)
+  let major := major_of version in
+  let rhel := str_eqb short (lit "RHEL") in
+  let repo0 := or_dot (rstrip_slash (match repo_opt with Some r => r | None => lit "." end)) in
+  let repo1 := if endswith repo0 (lit "/repodata") then drop_last 9 repo0 else repo0 in
+  let repo : option str :=
+    if str_eqb repo1 (lit ".") then
+      if rhel && (str_eqb major (lit "3") || str_eqb major (lit "4")) then None
+      else if rhel && (str_eqb major (lit "5") || str_eqb major (lit "6")) then Some vid
+      else Some repo1
+    else Some repo1 in
+  let pk0 := match pkgs_opt with Some p => p | None => match repo with Some r => r | None => [] end end in
+  let pk1 := or_dot (rstrip_slash pk0) in
+  let pk := if rhel && str_eqb major (lit "5") then vid
+            else if rhel && (str_eqb major (lit "3") || str_eqb major (lit "4")) then lit "RedHat/RPMS"
+            else if str_eqb short (lit "Fedora") && str_eqb pk1 (lit ".") then lit "Packages"
+            else pk1 in
+  if str_eqb arch (lit "src") then (None, None, Some pk, repo) else (Some pk, repo, None, None).
